@@ -978,6 +978,13 @@ impl<'a> Writer<'a> {
                 TsigMode::Unsigned { algorithm } => (tsig.rr.unsigned(algorithm), None),
             };
             self.available += tsig.reserved_len;
+
+            // The space reserved for the TSIG RR assumes that its owner
+            // is not compressed. Write it that way, so that the
+            // reservation is exact: otherwise, records are left out of
+            // (or TC is set on) messages that would have fit.
+            let saved_compression_mode = self.compression_mode;
+            self.compression_mode = CompressionMode::Disabled;
             self.add_rr(
                 HintedName::new(Hint::None, &tsig.rr.key_name),
                 Type::TSIG,
@@ -987,6 +994,7 @@ impl<'a> Writer<'a> {
                 None,
             )
             .unwrap();
+            self.compression_mode = saved_compression_mode;
             mac
         } else {
             None
